@@ -167,6 +167,9 @@ def run(module: str, cfg: str, *, workdir: str, mode: str = "mc", workers: Optio
     res = TlcResult(ok=False, wall_s=time.time() - t0, cmd=" ".join(cmd[cmd.index("tlc2.TLC"):]))
     out = p.stdout
     res.tail = out[-6000:]
+    i = out.find("Error:")
+    if i >= 0:
+        res.tail = out[i:i + 2500] + "\n...\n" + out[-2500:]
     for line in out.splitlines():
         if line.startswith('"@@'):
             try:
@@ -227,7 +230,7 @@ def run(module: str, cfg: str, *, workdir: str, mode: str = "mc", workers: Optio
     elif finished:
         res.ok = True
     else:
-        raise MachineryError("TLC did not finish cleanly:\n" + out[-3000:])
+        raise MachineryError("TLC did not finish cleanly:\n" + res.tail)
     shutil.rmtree(meta, ignore_errors=True)
     return res
 
